@@ -112,10 +112,11 @@ func (v *VMap) validate(prefix string, tv reflect.Value) *VMap {
 					v.errBuf.WriteString(GetJoinValidErrStr("", v.getKey(prefix, key), "", ExplainEn, "it is", Required))
 				case Either, BothEq:
 					v.vc.initValid2FieldsMap(&name2Value{
+						groupObj:   prefix,
 						validName:  validName,
-						fieldName:  key,
+						fieldName:  v.getKey(prefix, key),
 						cusMsg:     cusMsg,
-						reflectVal: reflect.ValueOf(val),
+						reflectVal: val,
 					})
 				default:
 					v.errBuf.WriteString(GetJoinFieldErr("", v.getKey(prefix, key), "valid \""+validName+"\" is no support"))
